@@ -19,6 +19,7 @@ import pymbolic.interop.ast as astmod
 from .. import usertypes as U
 from ..core import check, short
 from ..gen import expr as G
+from ..gen import scale
 from ..mon.trace import HandlerTrace
 from ..ref import normal, refsem
 
@@ -542,9 +543,34 @@ def workload(ctx):
             for seed in range(3):
                 ctx.run("C13.compile", (e, ["x"], False, 1000 * i + seed))
             ctx.run("C13.ast", (e, i))
+        # sharing: ONE composite object at two places whose contexts differ (loose first, tight
+        # later, and the reverse) -- what a program that names a sub-expression builds
+        comps = [p.Sum((X_, Y_)), p.Sum((X_, -2)), p.Product((-1, X_)), p.Product((X_, Y_)),
+                 p.FloorDiv(X_, 3), p.Remainder(Y_, 5), p.If(p.Comparison(X_, "<", Y_), X_, Y_),
+                 p.Power(X_, 2), p.Min((X_, Y_)), p.Comparison(X_, "<", Y_), p.BitwiseOr((X_, 4)),
+                 p.LeftShift(X_, 2), p.Quotient(X_, 4),
+                 p.LogicalOr((p.Comparison(X_, "<", 0), p.Comparison(Y_, ">", 1)))]
+        for i, s_ in enumerate(comps):
+            for j, e in enumerate(scale.shared_contexts(s_, 3, p.Variable("z"))):
+                if ctx.mine("shared"):
+                    ctx.case(("shared", i, j), True, n=0)
+                    ctx.count("shared_node_shapes")
+                    ctx.run("C13.compile", (e, ["x"] if j % 2 else [], False, 100 * i + j))
+                    ctx.run("C13.ast", (e, 100 * i + j))
+        for i in range(ctx.per_shard(ctx.pick(400, 8000))):
+            r2 = ctx.sub_rng("graft", i)
+            e = g_int(r2, r2.randint(2, 4), []) if i % 2 else g_num(r2, r2.randint(2, 4), [])
+            e = scale.graft(e, r2) if isinstance(e, p.Expression) else None
+            if e is None:
+                continue
+            ctx.case(("graft", normal.typed_key(e)), True, n=0)
+            ctx.count("shared_node_shapes")
+            ctx.run("C13.compile", (e, [], False, i))
+            ctx.run("C13.ast", (e, i))
         for k, v in tr.handlers().items():
             ctx.count("handler:" + k, v)
     ctx.floor("subclass_calls", 1000)
+    ctx.floor("shared_node_shapes", 300)
     ctx.floor("lazy_fault_shapes", 20)
     ctx.floor("signed_zero_and_imaginary_shapes", 15)
     ctx.floor("repeated_constant_shapes", 100)
